@@ -683,3 +683,775 @@ pub fn check_c05_mux(sc: &Scenario, rr: &RunResult) -> Vec<Violation> {
     v.extend(check_c05_blackbox(sc, rr));
     v
 }
+
+// ---------------------------------------------------------------------------------------------
+// Timing-aware walk (family TIME)
+// ---------------------------------------------------------------------------------------------
+
+struct Emis {
+    /// label -> (emit time, end offset in the response stream)
+    by_label: BTreeMap<String, (u64, usize)>,
+    /// (time, upto) of every network delivery, in order
+    deliveries: Vec<(u64, usize)>,
+}
+
+impl Emis {
+    fn new(hist: &[Ev]) -> Emis {
+        let mut by_label = BTreeMap::new();
+        let mut deliveries = vec![];
+        for e in hist {
+            match &e.kind {
+                EvKind::SrvEmit { label, range, .. } => {
+                    by_label.insert(label.clone(), (e.t_ms, range.1));
+                }
+                EvKind::NetDeliver { upto } => deliveries.push((e.t_ms, *upto)),
+                _ => {}
+            }
+        }
+        Emis { by_label, deliveries }
+    }
+    /// virtual time at which the emission with this label became readable by the client
+    fn delivered_at(&self, label: &str) -> Option<u64> {
+        let (_, end) = self.by_label.get(label)?;
+        self.deliveries.iter().find(|(_, upto)| upto >= end).map(|(t, _)| *t)
+    }
+}
+
+#[derive(Clone, Debug)]
+pub struct TimedMismatch {
+    pub client: usize,
+    pub step: usize,
+    pub what: &'static str,
+    pub ctx: String,
+    pub kind: &'static str,
+    pub detail: String,
+}
+
+enum Exp {
+    /// value and the virtual time at which the call must return
+    At(Ret, u64),
+    /// a tie between arrival and deadline: both outcomes are legal; stop modelling this stream/op
+    Ambiguous,
+    /// the call can never return (nothing planned, no timeout): not generated
+    Never,
+}
+
+fn classify(actual: &Ret, at: u64, e: &Ret, et: u64, fin: bool) -> Option<&'static str> {
+    let same = if fin { model::fin_matches(actual, e) } else { actual == e };
+    if same {
+        if at != et {
+            return Some("wrong-time");
+        }
+        return None;
+    }
+    let a_to = matches!(actual, Ret::Err(crate::world::ErrC::Timeout));
+    let e_to = matches!(e, Ret::Err(crate::world::ErrC::Timeout));
+    Some(if a_to && !e_to {
+        "timeout-although-reply-arrived-in-time"
+    } else if !a_to && e_to {
+        "no-timeout-at-deadline"
+    } else {
+        "wrong-value"
+    })
+}
+
+/// Walk all clients with the timing model. Returns mismatches.
+pub fn walk_timed(sc: &Scenario, rr: &RunResult) -> Vec<TimedMismatch> {
+    let hist = &rr.hist;
+    let rets = returns_by_step(hist);
+    let invs = invokes_by_step(hist);
+    let em = Emis::new(hist);
+    let mut out = vec![];
+    struct St {
+        tok: String,
+        adapter: crate::scenario::Adapter,
+        timeout: Option<u64>,
+        cursor: usize,
+        n_items: usize,
+        has_done: bool,
+        state: model::SState,
+        refs: Vec<String>,
+        result: Option<crate::world::ResC>,
+        ambiguous: bool,
+    }
+    for (c, cs) in sc.clients.iter().enumerate() {
+        let mut streams: BTreeMap<usize, Option<St>> = BTreeMap::new();
+        let mut dropped = false;
+        for (ix, step) in cs.steps.iter().enumerate() {
+            let actual = rets.get(&(c, ix)).map(|x| (x.0, x.2));
+            let t_inv = invs.get(&(c, ix)).map(|x| x.0);
+            let mut report = |what: &'static str, ctx: String, exp: Exp, fin: bool| match exp {
+                Exp::Ambiguous | Exp::Never => {}
+                Exp::At(e, et) => match actual {
+                    None => out.push(TimedMismatch { client: c, step: ix, what, ctx, kind: "no-return", detail: format!("expected {} at t={et}ms", clip(&format!("{:?}", e))) }),
+                    Some((a, at)) => {
+                        if let Some(kind) = classify(a, at, &e, et, fin) {
+                            out.push(TimedMismatch {
+                                client: c,
+                                step: ix,
+                                what,
+                                ctx,
+                                kind,
+                                detail: format!("expected {} at t={et}ms, got {} at t={at}ms", clip(&format!("{:?}", e)), clip(&format!("{:?}", a))),
+                            });
+                        }
+                    }
+                },
+            };
+            // model of one (inner) receive on a search: returns Ok(Some(item index)) / Ok(None)=done / Err(timeout time) / ambiguous
+            match step {
+                Step::DropHandle => dropped = true,
+                Step::Op { token, op, mods, .. } => {
+                    if dropped {
+                        continue;
+                    }
+                    let Some(t0) = t_inv else { continue };
+                    match op {
+                        OpSpec::Abandon(_) | OpSpec::Unbind => report(lifecycle(step), String::new(), Exp::At(Ret::Unit, t0), false),
+                        OpSpec::Search(_) => {
+                            // search() = EntriesOnly loop with a per-receive timer
+                            let Some(ReplyPlan::Items { items, done, .. }) = sc.plan.by_token.get(token) else { continue };
+                            let mut cur = t0;
+                            let mut entries = vec![];
+                            let mut refs = vec![];
+                            let mut exp = None;
+                            for (i, it) in items.iter().enumerate() {
+                                match recv_model(&em, &format!("{token}:item{i}"), cur, mods.timeout_ms) {
+                                    Recv::At(t) => {
+                                        cur = t;
+                                        match &it.op {
+                                            crate::msg::RespOp::Entry { .. } => entries.push(model::item_expect(&it.op, &it.ctrls)),
+                                            crate::msg::RespOp::Reference { uris } => refs.extend(uris.iter().cloned()),
+                                            _ => {}
+                                        }
+                                    }
+                                    Recv::Timeout(t) => {
+                                        exp = Some(Exp::At(Ret::Err(crate::world::ErrC::Timeout), t));
+                                        break;
+                                    }
+                                    Recv::Ambiguous => {
+                                        exp = Some(Exp::Ambiguous);
+                                        break;
+                                    }
+                                    Recv::Never => {
+                                        exp = Some(Exp::Never);
+                                        break;
+                                    }
+                                }
+                            }
+                            if exp.is_none() {
+                                exp = Some(match done {
+                                    None => match mods.timeout_ms {
+                                        Some(t) => Exp::At(Ret::Err(crate::world::ErrC::Timeout), cur + t),
+                                        None => Exp::Never,
+                                    },
+                                    Some(d) => match recv_model(&em, &format!("{token}:done"), cur, mods.timeout_ms) {
+                                        Recv::At(t) => {
+                                            let mut res = model::res_expect(&d.res, &d.ctrls);
+                                            res.refs.extend(refs.clone());
+                                            Exp::At(Ret::Search { entries: entries.clone(), res }, t)
+                                        }
+                                        Recv::Timeout(t) => Exp::At(Ret::Err(crate::world::ErrC::Timeout), t),
+                                        Recv::Ambiguous => Exp::Ambiguous,
+                                        Recv::Never => Exp::Never,
+                                    },
+                                });
+                            }
+                            report("search", "search()".into(), exp.unwrap(), false);
+                        }
+                        _ => {
+                            let exp = match sc.plan.by_token.get(token) {
+                                Some(ReplyPlan::Single { res, ctrls, .. }) => match recv_model(&em, &format!("{token}:reply"), t0, mods.timeout_ms) {
+                                    Recv::At(t) => Exp::At(model::single_expect(op, res, ctrls), t),
+                                    Recv::Timeout(t) => Exp::At(Ret::Err(crate::world::ErrC::Timeout), t),
+                                    Recv::Ambiguous => Exp::Ambiguous,
+                                    Recv::Never => Exp::Never,
+                                },
+                                Some(ReplyPlan::Silent) => match mods.timeout_ms {
+                                    Some(t) => Exp::At(Ret::Err(crate::world::ErrC::Timeout), t0 + t),
+                                    None => Exp::Never,
+                                },
+                                _ => Exp::Never,
+                            };
+                            let ctx = if mods.timeout_ms.is_some() { "timed" } else { "untimed" };
+                            report(lifecycle(step), ctx.into(), exp, false);
+                        }
+                    }
+                }
+                Step::Open { token, slot, adapter, mods, .. } => {
+                    if dropped {
+                        continue;
+                    }
+                    let Some(t0) = t_inv else { continue };
+                    let (n_items, has_done) = match sc.plan.by_token.get(token) {
+                        Some(ReplyPlan::Items { items, done, .. }) => (items.len(), done.is_some()),
+                        _ => (0, false),
+                    };
+                    streams.insert(
+                        *slot,
+                        Some(St {
+                            tok: token.clone(),
+                            adapter: *adapter,
+                            timeout: mods.timeout_ms,
+                            cursor: 0,
+                            n_items,
+                            has_done,
+                            state: model::SState::Active,
+                            refs: vec![],
+                            result: None,
+                            ambiguous: false,
+                        }),
+                    );
+                    report("open", String::new(), Exp::At(Ret::Opened, t0), false);
+                }
+                Step::Next { slot, .. } => {
+                    let Some(Some(st)) = streams.get_mut(slot) else { continue };
+                    let Some(t0) = t_inv else { continue };
+                    if st.ambiguous {
+                        continue;
+                    }
+                    let ctx = format!("{:?}/{}{}", st.adapter, st.state.phase(), if st.timeout.is_some() { "/timed" } else { "" });
+                    if st.state != model::SState::Active {
+                        // calls outside Active are C10's business; the interpreter skips them in this family
+                        continue;
+                    }
+                    let Some(ReplyPlan::Items { items, done, .. }) = sc.plan.by_token.get(&st.tok) else { continue };
+                    let entries_only = st.adapter == crate::scenario::Adapter::EntriesOnly;
+                    let mut cur = t0;
+                    let exp = loop {
+                        if st.cursor < st.n_items {
+                            let it = &items[st.cursor];
+                            match recv_model(&em, &format!("{}:item{}", st.tok, st.cursor), cur, st.timeout) {
+                                Recv::At(t) => {
+                                    cur = t;
+                                    st.cursor += 1;
+                                    if entries_only {
+                                        match &it.op {
+                                            crate::msg::RespOp::Entry { .. } => break Exp::At(Ret::Item(Some(model::item_expect(&it.op, &it.ctrls))), cur),
+                                            crate::msg::RespOp::Reference { uris } => {
+                                                st.refs.extend(uris.iter().cloned());
+                                                continue;
+                                            }
+                                            _ => continue,
+                                        }
+                                    }
+                                    break Exp::At(Ret::Item(Some(model::item_expect(&it.op, &it.ctrls))), cur);
+                                }
+                                Recv::Timeout(t) => {
+                                    st.state = model::SState::Error;
+                                    break Exp::At(Ret::Err(crate::world::ErrC::Timeout), t);
+                                }
+                                Recv::Ambiguous => {
+                                    st.ambiguous = true;
+                                    break Exp::Ambiguous;
+                                }
+                                Recv::Never => break Exp::Never,
+                            }
+                        } else if st.has_done {
+                            let d = done.as_ref().unwrap();
+                            match recv_model(&em, &format!("{}:done", st.tok), cur, st.timeout) {
+                                Recv::At(t) => {
+                                    st.result = Some(model::res_expect(&d.res, &d.ctrls));
+                                    st.state = model::SState::Done;
+                                    break Exp::At(Ret::Item(None), t);
+                                }
+                                Recv::Timeout(t) => {
+                                    st.state = model::SState::Error;
+                                    break Exp::At(Ret::Err(crate::world::ErrC::Timeout), t);
+                                }
+                                Recv::Ambiguous => {
+                                    st.ambiguous = true;
+                                    break Exp::Ambiguous;
+                                }
+                                Recv::Never => break Exp::Never,
+                            }
+                        } else {
+                            match st.timeout {
+                                Some(t) => {
+                                    st.state = model::SState::Error;
+                                    break Exp::At(Ret::Err(crate::world::ErrC::Timeout), cur + t);
+                                }
+                                None => break Exp::Never,
+                            }
+                        }
+                    };
+                    if actual.map(|a| a.0) == Some(&Ret::Skipped) {
+                        continue;
+                    }
+                    report("next", ctx, exp, false);
+                }
+                Step::Finish { slot } => {
+                    let Some(Some(st)) = streams.get_mut(slot) else { continue };
+                    let Some(t0) = t_inv else { continue };
+                    if st.ambiguous {
+                        continue;
+                    }
+                    let ctx = format!("{:?}/{}", st.adapter, st.state.phase());
+                    let e = if st.state == model::SState::Closed {
+                        model::synthetic(80)
+                    } else {
+                        let mut r = st.result.take().unwrap_or_else(|| model::synthetic(88));
+                        if st.adapter == crate::scenario::Adapter::EntriesOnly {
+                            r.refs.extend(std::mem::take(&mut st.refs));
+                        }
+                        r
+                    };
+                    st.state = model::SState::Closed;
+                    report("finish", ctx, Exp::At(Ret::Fin(e), t0), true);
+                }
+                Step::DropStream { slot } => {
+                    streams.insert(*slot, None);
+                }
+                _ => {}
+            }
+        }
+    }
+    out
+}
+
+enum Recv {
+    At(u64),
+    Timeout(u64),
+    Ambiguous,
+    Never,
+}
+
+/// One receive that starts waiting at `cur` with an optional timer of `timeout` ms.
+fn recv_model(em: &Emis, label: &str, cur: u64, timeout: Option<u64>) -> Recv {
+    match (em.delivered_at(label), timeout) {
+        (Some(td), None) => Recv::At(td.max(cur)),
+        (Some(td), Some(t)) => {
+            let arrive = td.max(cur);
+            if arrive < cur + t {
+                Recv::At(arrive)
+            } else if arrive == cur + t {
+                Recv::Ambiguous
+            } else {
+                Recv::Timeout(cur + t)
+            }
+        }
+        (None, Some(t)) => Recv::Timeout(cur + t),
+        (None, None) => Recv::Never,
+    }
+}
+
+/// residue at checkpoints (shared shape with C13, reported under the given property/clause)
+pub fn residue(prop: &str, clause: &str, sc: &Scenario, rr: &RunResult) -> Vec<Violation> {
+    check_c13(sc, rr)
+        .into_iter()
+        .filter(|v| v.clause == "C13.ids" || v.clause == "C13.routing")
+        .map(|v| Violation::new(prop, clause, v.signature, v.detail))
+        .collect()
+}
+
+/// C12: timeouts. Family TIME.
+pub fn check_c12(sc: &Scenario, rr: &RunResult) -> Vec<Violation> {
+    let mut v = check_clean_run("C12", rr);
+    if !v.is_empty() {
+        return v;
+    }
+    for m in walk_timed(sc, rr) {
+        let clause = match m.kind {
+            "timeout-although-reply-arrived-in-time" => "C12.a",
+            "no-timeout-at-deadline" | "wrong-time" => "C12.b",
+            "wrong-value" => "C12.c",
+            _ => "C12.d",
+        };
+        v.push(Violation::new("C12", clause, format!("{}/{}/{}", m.what, m.ctx, m.kind), format!("client {} step {}: {}", m.client, m.step, m.detail)));
+    }
+    v.extend(residue("C12", "C12.e", sc, rr));
+    v
+}
+
+// ---------------------------------------------------------------------------------------------
+// C04: termination and failure propagation (family FAULT)
+// ---------------------------------------------------------------------------------------------
+
+#[derive(Clone, Copy, Debug, PartialEq)]
+pub enum FaultMode {
+    /// read-side fault (or none): everything the server sent before `at` must be returned, nothing after it
+    Exact { at: usize },
+    /// write-side / mixed fault, unbind: a planned value or an error
+    Relaxed,
+}
+
+fn emission_ends(hist: &[Ev]) -> BTreeMap<String, (usize, usize)> {
+    let mut m = BTreeMap::new();
+    for e in hist {
+        if let EvKind::SrvEmit { label, range, .. } = &e.kind {
+            m.insert(label.clone(), *range);
+        }
+    }
+    m
+}
+
+fn max_delivered(hist: &[Ev]) -> usize {
+    hist.iter().filter_map(|e| if let EvKind::NetDeliver { upto } = &e.kind { Some(*upto) } else { None }).max().unwrap_or(0)
+}
+
+pub fn walk_fault(sc: &Scenario, rr: &RunResult, mode: FaultMode) -> Vec<Mismatch> {
+    let hist = &rr.hist;
+    let rets = returns_by_step(hist);
+    let ems = emission_ends(hist);
+    let maxd = max_delivered(hist);
+    // is the emission with this label completely readable by the client?
+    let arrived = |label: &str| -> bool {
+        match ems.get(label) {
+            None => false,
+            Some((_, end)) => match mode {
+                FaultMode::Exact { at } => *end <= at,
+                FaultMode::Relaxed => *end <= maxd,
+            },
+        }
+    };
+    let exact = matches!(mode, FaultMode::Exact { .. });
+    let mut out = vec![];
+    for (c, cs) in sc.clients.iter().enumerate() {
+        let mut dropped = false;
+        struct St {
+            tok: String,
+            adapter: crate::scenario::Adapter,
+            cursor: usize,
+            state: model::SState,
+            refs: Vec<String>,
+            result: Option<crate::world::ResC>,
+        }
+        let mut streams: BTreeMap<usize, Option<St>> = BTreeMap::new();
+        for (ix, step) in cs.steps.iter().enumerate() {
+            if matches!(step, Step::DropHandle) {
+                dropped = true;
+                continue;
+            }
+            let Some((actual, ..)) = rets.get(&(c, ix)) else {
+                // missing returns are reported by the termination clause
+                continue;
+            };
+            let actual: &Ret = actual;
+            let what = lifecycle(step);
+            let mut push = |expected: String, ctx: String, foreign: bool| {
+                out.push(Mismatch { client: c, step: ix, what, expected, actual: clip(&format!("{:?}", actual)), foreign, missing: false, ctx });
+            };
+            // Check one call: `planned` is the value if everything arrived (`ok_possible`), `must_ok` says the
+            // value is mandatory.
+            let mut judge = |planned: &Ret, ok_possible: bool, must_ok: bool, ctx: String, fin: bool| {
+                let is_planned = if fin { model::fin_matches(actual, planned) } else { actual == planned };
+                match actual {
+                    Ret::Err(_) => {
+                        if must_ok {
+                            push(format!("{:?}", planned), format!("{ctx}/error-although-reply-was-delivered"), false);
+                        }
+                    }
+                    _ if is_planned => {
+                        if !ok_possible {
+                            push("an error (the reply was never delivered)".into(), format!("{ctx}/value-that-was-not-received"), false);
+                        }
+                    }
+                    _ => push(format!("{:?} or an error", planned), format!("{ctx}/wrong-value"), false),
+                }
+            };
+            match step {
+                Step::DropHandle => dropped = true,
+                Step::Op { token, op, .. } => {
+                    if dropped {
+                        continue;
+                    }
+                    match op {
+                        OpSpec::Abandon(_) | OpSpec::Unbind => {
+                            // completes when the driver has written it, or fails
+                            if !matches!(actual, Ret::Unit | Ret::Err(_)) {
+                                push("Unit or an error".into(), String::new(), false);
+                            }
+                        }
+                        OpSpec::Search(_) => {
+                            let Some(ReplyPlan::Items { items, done: Some(d), .. }) = sc.plan.by_token.get(token) else { continue };
+                            let all = (0..items.len()).all(|i| arrived(&format!("{token}:item{i}"))) && arrived(&format!("{token}:done"));
+                            let planned = model::search_expect(items, d);
+                            judge(&planned, all, all && exact, "search()".into(), false);
+                        }
+                        _ => {
+                            let Some(ReplyPlan::Single { res, ctrls, .. }) = sc.plan.by_token.get(token) else { continue };
+                            let a = arrived(&format!("{token}:reply"));
+                            let planned = model::single_expect(op, res, ctrls);
+                            judge(&planned, a, a && exact, "single".into(), false);
+                        }
+                    }
+                }
+                Step::Open { token, slot, adapter, .. } => {
+                    if dropped {
+                        continue;
+                    }
+                    match actual {
+                        Ret::Opened => {
+                            streams.insert(
+                                *slot,
+                                Some(St { tok: token.clone(), adapter: *adapter, cursor: 0, state: model::SState::Active, refs: vec![], result: None }),
+                            );
+                        }
+                        Ret::Err(_) => {
+                            streams.insert(*slot, None);
+                        }
+                        _ => push("Opened or an error".into(), String::new(), false),
+                    }
+                }
+                Step::Next { slot, .. } => {
+                    let Some(Some(st)) = streams.get_mut(slot) else { continue };
+                    if *actual == Ret::Skipped || st.state != model::SState::Active {
+                        continue;
+                    }
+                    let Some(ReplyPlan::Items { items, done, .. }) = sc.plan.by_token.get(&st.tok) else { continue };
+                    let entries_only = st.adapter == crate::scenario::Adapter::EntriesOnly;
+                    // walk emissions until the call has a value
+                    let ctx = format!("{:?}", st.adapter);
+                    let mut expected: Option<Ret> = None; // None = must be an error
+                    let mut cur = st.cursor;
+                    let mut refs_add: Vec<String> = vec![];
+                    loop {
+                        if cur < items.len() {
+                            if !arrived(&format!("{}:item{}", st.tok, cur)) {
+                                break;
+                            }
+                            let it = &items[cur];
+                            cur += 1;
+                            if entries_only {
+                                match &it.op {
+                                    crate::msg::RespOp::Entry { .. } => {
+                                        expected = Some(Ret::Item(Some(model::item_expect(&it.op, &it.ctrls))));
+                                        break;
+                                    }
+                                    crate::msg::RespOp::Reference { uris } => {
+                                        refs_add.extend(uris.iter().cloned());
+                                        continue;
+                                    }
+                                    _ => continue,
+                                }
+                            }
+                            expected = Some(Ret::Item(Some(model::item_expect(&it.op, &it.ctrls))));
+                            break;
+                        } else if done.is_some() && arrived(&format!("{}:done", st.tok)) {
+                            expected = Some(Ret::Item(None));
+                            cur += 1;
+                            break;
+                        } else {
+                            break;
+                        }
+                    }
+                    match (&expected, actual) {
+                        (_, Ret::Err(_)) => {
+                            if expected.is_some() && exact {
+                                push(format!("{:?}", expected.as_ref().unwrap()), format!("{ctx}/error-although-item-was-delivered"), false);
+                            }
+                            st.state = model::SState::Error;
+                            // references consumed on the way stay collected
+                            st.refs.extend(refs_add);
+                        }
+                        (Some(e), a) if *a == *e => {
+                            st.cursor = cur;
+                            st.refs.extend(refs_add);
+                            if *e == Ret::Item(None) {
+                                let d = done.as_ref().unwrap();
+                                st.result = Some(model::res_expect(&d.res, &d.ctrls));
+                                st.state = model::SState::Done;
+                            }
+                        }
+                        (Some(e), _) => {
+                            push(format!("{:?} or an error", e), format!("{ctx}/wrong-value"), false);
+                            st.state = model::SState::Error;
+                        }
+                        (None, _) => {
+                            push("an error (nothing more was delivered for this search)".into(), format!("{ctx}/value-that-was-not-received"), false);
+                            st.state = model::SState::Error;
+                        }
+                    }
+                }
+                Step::Finish { slot } => {
+                    let Some(Some(st)) = streams.get_mut(slot) else { continue };
+                    let e = if st.state == model::SState::Closed {
+                        model::synthetic(80)
+                    } else {
+                        let mut r = st.result.take().unwrap_or_else(|| model::synthetic(88));
+                        if st.adapter == crate::scenario::Adapter::EntriesOnly {
+                            r.refs.extend(std::mem::take(&mut st.refs));
+                        }
+                        r
+                    };
+                    st.state = model::SState::Closed;
+                    if !model::fin_matches(actual, &Ret::Fin(e.clone())) {
+                        push(format!("{:?}", e), format!("{:?}/finish", st.adapter), false);
+                    }
+                }
+                Step::DropStream { slot } => {
+                    streams.insert(*slot, None);
+                }
+                _ => {}
+            }
+        }
+    }
+    out
+}
+
+pub fn check_c04(sc: &Scenario, rr: &RunResult) -> Vec<Violation> {
+    use crate::scenario::Fault;
+    let mut v = vec![];
+    // (a) termination
+    match rr.verdict {
+        crate::exec::Verdict::Done => {}
+        crate::exec::Verdict::Hang => {
+            // which calls are stuck?
+            let rets = returns_by_step(&rr.hist);
+            let mut stuck = vec![];
+            for e in &rr.hist {
+                if let EvKind::Invoke { client, step, what, .. } = &e.kind {
+                    if !rets.contains_key(&(*client, *step)) {
+                        stuck.push(what.trim_matches('"').split(':').next().unwrap_or("").to_string());
+                    }
+                }
+            }
+            stuck.sort();
+            stuck.dedup();
+            let driver_done = rr.hist.iter().any(|e| matches!(e.kind, EvKind::DriverExit { .. }));
+            let sig = if stuck.is_empty() {
+                if driver_done { "hang/unknown".to_string() } else { "hang/driver-never-returns".to_string() }
+            } else {
+                format!("hang/{}", stuck.join("+"))
+            };
+            v.push(Violation::new("C04", "C04.a", sig, "a call or the driver did not complete before the virtual-time watchdog"));
+        }
+        crate::exec::Verdict::StepCap => v.push(Violation::new("C04", "C04.a", "livelock", "step cap reached")),
+    }
+    for (actor, msg, file) in panics(&rr.hist) {
+        let who = if actor.starts_with("client") { "client" } else { actor.as_str() };
+        v.push(Violation::new("C04", "C04.panic", format!("panic/{who}/{}/{}", short_file(&file), trunc(&msg, 60)), format!("{actor} panicked: {msg} ({file})")));
+    }
+    if !v.is_empty() {
+        return v;
+    }
+    // which kind of run is this?
+    let has_unbind = sc.clients.iter().any(|c| c.steps.iter().any(|s| matches!(s, Step::Op { op: OpSpec::Unbind, .. })));
+    let hostile_at = rr.hist.iter().find_map(|e| match &e.kind {
+        EvKind::SrvEmit { label, range, .. } if label == "hostile" => Some(range.0),
+        _ => None,
+    });
+    let mut mode = FaultMode::Exact { at: usize::MAX };
+    let mut read_side = true;
+    for f in &sc.faults {
+        match f {
+            Fault::EofAt { at } | Fault::ReadErrAt { at, .. } => mode = FaultMode::Exact { at: *at },
+            _ => {
+                mode = FaultMode::Relaxed;
+                read_side = false;
+            }
+        }
+    }
+    if sc.faults.len() > 1 || has_unbind {
+        mode = FaultMode::Relaxed;
+        read_side = false;
+    }
+    if let (Some(h), true) = (hostile_at, sc.faults.is_empty() && !has_unbind) {
+        mode = FaultMode::Exact { at: h };
+    }
+    let _ = read_side;
+    for m in walk_fault(sc, rr, mode) {
+        let clause = if m.ctx.contains("error-although") {
+            "C04.c"
+        } else if m.ctx.contains("not-received") || m.ctx.contains("wrong-value") {
+            "C04.b"
+        } else {
+            "C04.d"
+        };
+        v.push(Violation::new("C04", clause, format!("{}/{}", m.what, m.ctx), format!("client {} step {}: expected {} got {}", m.client, m.step, clip(&m.expected), m.actual)));
+    }
+    // (e) operations invoked after the driver returned fail at once
+    let exit_seq = rr.hist.iter().find_map(|e| if let EvKind::DriverExit { .. } = &e.kind { Some(e.seq) } else { None });
+    let rets = returns_by_step(&rr.hist);
+    if let Some(xs) = exit_seq {
+        for e in &rr.hist {
+            if let EvKind::Invoke { client, step, what, .. } = &e.kind {
+                if e.seq > xs && (what.starts_with('"') || what.starts_with("open")) {
+                    match rets.get(&(*client, *step)) {
+                        Some((Ret::Err(_), _, t, _)) => {
+                            if *t != e.t_ms {
+                                v.push(Violation::new("C04", "C04.e", "late-operation-fails-late", format!("operation invoked at t={}ms after the driver had returned failed only at t={}ms", e.t_ms, t)));
+                            }
+                        }
+                        Some((other, ..)) => v.push(Violation::new("C04", "C04.e", "late-operation-does-not-fail", format!("operation invoked after the driver had returned gave {}", clip(&format!("{:?}", other))))),
+                        None => {}
+                    }
+                }
+            }
+        }
+    }
+    // (f) unbind / last drop
+    let unbind_ret = {
+        let mut r = None;
+        for (c, cs) in sc.clients.iter().enumerate() {
+            for (ix, st) in cs.steps.iter().enumerate() {
+                if matches!(st, Step::Op { op: OpSpec::Unbind, .. }) {
+                    if let Some((Ret::Unit, _, t, seq)) = rets.get(&(c, ix)) {
+                        r = Some((*t, *seq));
+                    }
+                }
+            }
+        }
+        r
+    };
+    if let Some((_, useq)) = unbind_ret {
+        let srv_unbind = rr.hist.iter().find_map(|e| match &e.kind {
+            EvKind::SrvRecv { kind, strict, .. } if kind == "unbind" => Some((e.seq, strict.clone())),
+            _ => None,
+        });
+        let write_faulted = sc.faults.iter().any(|f| matches!(f, Fault::WriteErrAt { .. } | Fault::ServerCloseAfter { .. } | Fault::FlushErr { .. }));
+        match srv_unbind {
+            None => {
+                if !write_faulted {
+                    v.push(Violation::new("C04", "C04.f", "unbind-ok-but-no-unbind-request", "unbind() returned Ok but the server never read an UnbindRequest"));
+                }
+            }
+            Some((_, strict)) => {
+                if !strict.is_empty() {
+                    v.push(Violation::new("C04", "C04.f", "unbind-request-malformed", format!("{:?}", strict)));
+                }
+            }
+        }
+        let shut = rr.hist.iter().any(|e| matches!(e.kind, EvKind::SrvSawShutdown | EvKind::SrvSawClose));
+        if !shut {
+            v.push(Violation::new("C04", "C04.f", "unbind-does-not-close-transport", "after a successful unbind() the server never observed shutdown or close of the client's side"));
+        }
+        // later calls on any handle fail at once
+        for e in &rr.hist {
+            if let EvKind::Invoke { client, step, what, .. } = &e.kind {
+                if e.seq > useq && (what.starts_with('"') || what.starts_with("open")) {
+                    match rets.get(&(*client, *step)) {
+                        Some((Ret::Err(_), _, t, _)) => {
+                            if *t != e.t_ms {
+                                v.push(Violation::new("C04", "C04.f", "operation-after-unbind-fails-late", format!("invoked at t={}ms, failed at t={}ms", e.t_ms, t)));
+                            }
+                        }
+                        Some((other, ..)) => v.push(Violation::new("C04", "C04.f", "operation-after-unbind-does-not-fail", format!("operation invoked after unbind() had returned gave {}", clip(&format!("{:?}", other))))),
+                        None => {}
+                    }
+                }
+            }
+        }
+    }
+    // last handle dropped => transport closed, drive() returns; never closed while a handle or stream lives
+    let dropped_seq = rr.hist.iter().find_map(|e| if let EvKind::TransportDropped = &e.kind { Some(e.seq) } else { None });
+    let last_client_done = rr.hist.iter().filter_map(|e| if let EvKind::ClientDone { .. } = &e.kind { Some(e.seq) } else { None }).max();
+    let fault_free = sc.faults.is_empty() && hostile_at.is_none() && !has_unbind;
+    match (dropped_seq, last_client_done) {
+        (None, _) => v.push(Violation::new("C04", "C04.f", "transport-never-closed", "all handles and streams were dropped but the transport was not closed")),
+        (Some(d), Some(l)) => {
+            if fault_free && d < l {
+                v.push(Violation::new("C04", "C04.f", "transport-closed-while-handles-live", "the client closed the transport although a handle or stream was still alive and nothing had failed"));
+            }
+        }
+        _ => {}
+    }
+    if fault_free {
+        match rr.hist.iter().find_map(|e| if let EvKind::DriverExit { ok, err } = &e.kind { Some((*ok, err.clone())) } else { None }) {
+            Some((true, _)) => {}
+            Some((false, err)) => v.push(Violation::new("C04", "C04.f", "drive-errs-on-clean-close", format!("drive() returned {err} after the last handle was dropped"))),
+            None => {}
+        }
+    }
+    v
+}
